@@ -97,7 +97,15 @@ def generate(rng, tier):
         out += [sweep(k << 24, 1 << 24) for k in range(256)]
     else:
         out += [sweep(rng.randrange(1 << 14) << 18, 1 << 18) for _ in range(32)]
-    return out + enum_cases()
+    for n in (10, 200, 239, 240, 241, 254, 255, 256, 300, 1000):          # long extended texts and long custom messages in error items
+        out.append(mk("E:p-200x" + hexs(b"e" * n))); out.append(mk("E:c105:" + hexs(b"m" * n))); out.append(mk("E:c-7:" + hexs(b'q"' * (n // 2)) + "x" + hexs(b'"' * n)))
+    return out + enum_cases() + block_headers(tier)
+
+
+def block_headers(tier):
+    ns = [0, 1, 9, 10, 11, 99, 100, 999, 1000, 9999, 10000, 99999, 100000, 999999, 1000000, 9999999, 10000000, 10000001, 12345678, 99999999, 100000000, 100000001]
+    if tier != "quick": ns += [123456789, 999999999, 1000000000]
+    return [{"line": "blockhdr %d" % n, "item": "blockhdr:"} for n in ns]
 
 
 def sweep(start, count): return {"line": "f32sweep %08x %d" % (start, count), "item": "sweep:"}
@@ -115,6 +123,7 @@ def harness_line(c): return c["line"]
 def case_of_line(l):
     if l.startswith("enumv "): return {"line": l, "item": "enum:"}
     if l.startswith("f32sweep "): return {"line": l, "item": "sweep:"}
+    if l.startswith("blockhdr "): return {"line": l, "item": "blockhdr:"}
     return mk(l.split(" ", 1)[1])
 
 
@@ -137,7 +146,7 @@ def coq_item(item):
 
 def coq_term(c):
     if c["line"].startswith("enumv "): return C20.coq_term(c)
-    if c["line"].startswith("f32sweep "): return '"SKIP"'
+    if c["line"].startswith(("f32sweep ", "blockhdr ")): return '"SKIP"'
     d, back = coq_item(c["item"])
     if d is None: return '"SKIP"'
     return "run_fmt %s %s" % (d, "None" if back is None else "(Some (%s))" % back)
@@ -202,6 +211,7 @@ def impl_oracle(c, r):
     if r.startswith(("PANIC", "CRASH", "NOT-RUN", "HANG")): return "formatting panicked / died: " + r[:100]
     if c["line"].startswith("enumv "): return C20.impl_oracle(c, r)
     if c["line"].startswith("f32sweep "): return None if r == "OK" else "f32 response does not denote the value formatted: " + r
+    if c["line"].startswith("blockhdr "): return None if r == "OK" else "block header does not state the payload length: " + r
     f = r.split(" ")
     item = c["item"]; k, v = item.split(":", 1)
     if f[0].startswith("E"):
@@ -244,4 +254,5 @@ def distribution(cases, impl):
     d["format_errors"] = sum(1 for r in impl if r and r.startswith("E"))
     d["f32_patterns_swept_in_harness"] = sum(int(c["line"].split(" ")[2]) for c in cases if c["line"].startswith("f32sweep "))
     d.pop("sweep", None)
+    d["block_header_lengths"] = d.pop("blockhdr", 0)
     return d
